@@ -79,6 +79,12 @@ def gen_cases(tier, seed):
                 i += 1
                 yield {'family': fam, 'workers': w, 'pred': pred, 'n': 40, 'idx': i, 'seed': seed, 'rep': 0,
                        'layout': 'single', 'yield_injection': False}
+    # the row function raises for some selected rows: the worker reports it - and the row is still delivered, once
+    for w in (1, 2, 3) if tier == 'quick' else (1, 2, 3, 4):
+        for pred in ('none', 'every_3rd'):
+            i += 1
+            yield {'family': 'row_func_raises', 'workers': w, 'pred': pred, 'n': 60, 'idx': i, 'seed': seed, 'rep': 0,
+                   'layout': 'single', 'yield_injection': False}
     for fam, secs in pauses:
         for w in (2, 3):
             i += 1
@@ -139,6 +145,8 @@ def child_main(case, logpath, outpath):
                 labo.log('get', 'userlock', row.get('id'), 'ret')
         if case['family'] == 'slow_row' and row.get('id') == n - 3:
             time.sleep(pause)
+        if case['family'] == 'row_func_raises' and row.get('id') % 7 == 0:
+            raise ValueError('row function cannot handle row %r' % row.get('id'))
         row['_applied'] = row.get('_applied', 0) + 1
         row['_pid'] = os.getpid()
 
@@ -319,6 +327,8 @@ def run_case(case):
             continue
         for r in rows_out:
             if name in par and r['id'] in selected:
+                if case['family'] == 'row_func_raises' and r['id'] % 7 == 0:
+                    continue        # (delivered - judged above; the function gave up on it before touching it)
                 if r.get('_applied') != 1:
                     add('applied_once', 'row %r delivered with _applied=%r' % (r['id'], r.get('_applied')))
                     break
